@@ -61,9 +61,11 @@ func c11rRun(sc c11rScenario) (vs []ev.V) {
 		"mx.one.invalid.": {A: []string{"127.0.0.1"}},
 	}
 	tgt := &Target{name: "remote", hostname: "mx.maddy.test", resolver: &mockdns.Resolver{Zones: zones},
-		dialer: func(ctx context.Context, network, addr string) (net.Conn, error) { return (&net.Dialer{}).DialContext(ctx, "tcp", hop.Addr) },
-		Log:    log.Logger{Out: log.NopOutput{}}, limits: g, connReuseLimit: 10,
-		pool:   pool.New(pool.Config{MaxKeys: 5000, MaxConnsPerKey: 5, MaxConnLifetimeSec: 150, StaleKeyLifetimeSec: 300})}
+		dialer: func(ctx context.Context, network, addr string) (net.Conn, error) {
+			return (&net.Dialer{}).DialContext(ctx, "tcp", hop.Addr)
+		},
+		Log: log.Logger{Out: log.NopOutput{}}, limits: g, connReuseLimit: 10,
+		pool: pool.New(pool.Config{MaxKeys: 5000, MaxConnsPerKey: 5, MaxConnLifetimeSec: 150, StaleKeyLifetimeSec: 300})}
 	defer tgt.Close()
 	ctx, cancel := context.WithTimeout(context.Background(), 3*time.Second)
 	defer cancel()
